@@ -276,6 +276,10 @@ class StreamSock(SimSocketBase):
             wld.count('tcp.short_write')
         accepted = data[:size]
         pipe = self.tx
+        if getattr(self, '_tls_owner', None) is not None and not getattr(self, '_tls_passthrough', False):
+            # written to the TCP socket directly although a TLS layer has been put on top of it
+            wld.count('tls.bypassed_write')
+            wld.log('tls-bypass', self.conn.cid, pipe.name, len(accepted))
         seq = wld.log('tcp-send', self.conn.cid, pipe.name, pipe.total, accepted)
         pipe.tap.append((seq, wld.now, accepted))
         if pipe.rewrite:
